@@ -1,6 +1,11 @@
-(* C19 -- U-Boot: lossless quoting; output, status and environment parsed exactly.  Property theorems only. *)
-From TV Require Import Base Utf8 Hush ProofC19.
+(* C19 -- U-Boot commands: lossless quoting; output, status and environment parsed exactly.
+   Property theorems only; proofs are in ProofC19.v (quoting, U-Boot corollaries) and ProofSession.v (the
+   command/response exchange for every fragmentation).  hush_words is the model of U-Boot's classic hush parser
+   (an environment model, see Hush.v); `plain` = no CR / LF / 0x03 / 0x04. *)
+From TV Require Import Base Utf8 Regex Channel ChannelLemmas Hush Session ProofSession ProofC19.
 
+(* (1) every argument list comes out of hush exactly as it went in: one word per argument, no variable
+       expansion, command separation or comment taking effect -- on code points and on the bytes sent *)
 Theorem C19_quoting_is_lossless :
   forall args, Forall plain args -> hush_words (ub_escape args) = Some args.
 Proof. exact hush_quote_roundtrip. Qed.
@@ -10,3 +15,69 @@ Theorem C19_bytes_sent_are_read_back_as_the_arguments :
   forall args, Forall plain args -> hush_words (utf8_enc (ub_escape args)) = Some (map utf8_enc args).
 Proof. exact escape_sent_roundtrip. Qed.
 Print Assumptions C19_bytes_sent_are_read_back_as_the_arguments.
+
+(* (2) exec: for EVERY fragmentation and timing of the console's reaction (st1, st2 are arbitrary timed pieces
+       whose concatenation is echo ++ output ++ prompt) and every partial-write behaviour of the transport, exec
+       returns exactly the text of the console output between the echoed command and the next prompt and the
+       status printed for `echo $?`; exactly the two lines are sent; the channel is in sync again *)
+Theorem C19_exec_exact :
+  forall args P c st1 st2 sts out ds,
+  insync c -> prompt c = Some (SLit P) -> P <> [] ->
+  Forall plain args -> ub_override args c = None ->
+  any_in (blacklist c) (utf8_enc (ub_escape args) ++ [CR]) = false ->
+  any_in (blacklist c) (ECHO_Q ++ [CR]) = false ->
+  wf_pend st1 -> cat st1 = (utf8_enc (ub_escape args) ++ [CR; LF]) ++ out ++ P -> prompt_only_at_end P out ->
+  wf_pend st2 -> cat st2 = (ECHO_Q ++ [CR; LF]) ++ (ds ++ [CR; LF]) ++ P ->
+  all_digits ds -> ds <> [] -> prompt_only_at_end P (ds ++ [CR; LF]) ->
+  exists c',
+    ub_exec args (st1 :: st2 :: sts) c = (XOk (dec_val ds) (text out), c', sts) /\
+    insync c' /\
+    wr (io c') = wr (io c) ++ (utf8_enc (ub_escape args) ++ [CR]) ++ (ECHO_Q ++ [CR]) /\
+    hush_words (utf8_enc (ub_escape args)) = Some (map utf8_enc args) /\
+    prompt c' = prompt c /\ blacklist c' = blacklist c.
+Proof. exact ub_exec_exact. Qed.
+Print Assumptions C19_exec_exact.
+
+(* (2b) the crc32 special case on a "=> " prompt: the output line contains "==> " and is still returned exactly *)
+Theorem C19_exec_exact_crc32 :
+  forall args c st1 st2 sts o ds,
+  insync c -> prompt c = Some (SLit UB_ARROW) ->
+  Forall plain args -> ub_override args c = Some (LF :: UB_ARROW) ->
+  any_in (blacklist c) (utf8_enc (ub_escape args) ++ [CR]) = false ->
+  any_in (blacklist c) (ECHO_Q ++ [CR]) = false ->
+  ascii_noeol o ->
+  wf_pend st1 -> cat st1 = (utf8_enc (ub_escape args) ++ [CR; LF]) ++ (o ++ [CR; LF]) ++ UB_ARROW ->
+  wf_pend st2 -> cat st2 = (ECHO_Q ++ [CR; LF]) ++ (ds ++ [CR; LF]) ++ UB_ARROW ->
+  all_digits ds -> ds <> [] -> prompt_only_at_end UB_ARROW (ds ++ [CR; LF]) ->
+  exists c',
+    ub_exec args (st1 :: st2 :: sts) c = (XOk (dec_val ds) (text (o ++ [CR; LF])), c', sts) /\ insync c'.
+Proof. exact ub_exec_exact_crc32. Qed.
+Print Assumptions C19_exec_exact_crc32.
+
+(* (3) exec0 raises iff the status is not 0 *)
+Theorem C19_exec0_raises_iff_nonzero :
+  forall args sts c st out c' sts',
+  ub_exec args sts c = (XOk st out, c', sts') ->
+  ub_exec0 args sts c = (if (st =? 0)%Z then X0Ok out else X0Failure st, c', sts').
+Proof. exact ub_exec0_iff. Qed.
+Print Assumptions C19_exec0_raises_iff_nonzero.
+
+(* (4) env: setting a variable and reading it back returns exactly the value (ASCII names and values; the
+       UTF-8 decoding of non-ASCII values is covered by the correspondence runs, not by this theorem) *)
+Theorem C19_env_roundtrip :
+  forall var v P c s1 s2 s3 s4 sts,
+  insync c -> prompt c = Some (SLit P) -> P <> [] ->
+  plain var -> plain v -> ascii_noeol var -> ascii_noeol v ->
+  let setline := utf8_enc (ub_escape [SETENV; var; v]) in
+  let getline := utf8_enc (ub_escape [PRINTENV; var]) in
+  any_in (blacklist c) (setline ++ [CR]) = false -> any_in (blacklist c) (getline ++ [CR]) = false ->
+  any_in (blacklist c) (ECHO_Q ++ [CR]) = false ->
+  prompt_only_at_end P (ZERO ++ [CR; LF]) ->
+  prompt_only_at_end P ((var ++ [61%N] ++ v) ++ [CR; LF]) ->
+  wf_pend s1 -> cat s1 = (setline ++ [CR; LF]) ++ [] ++ P ->
+  wf_pend s2 -> cat s2 = (ECHO_Q ++ [CR; LF]) ++ (ZERO ++ [CR; LF]) ++ P ->
+  wf_pend s3 -> cat s3 = (getline ++ [CR; LF]) ++ ((var ++ [61%N] ++ v) ++ [CR; LF]) ++ P ->
+  wf_pend s4 -> cat s4 = (ECHO_Q ++ [CR; LF]) ++ (ZERO ++ [CR; LF]) ++ P ->
+  exists c', ub_env var (Some v) (s1 :: s2 :: s3 :: s4 :: sts) c = (X0Ok v, c', sts) /\ insync c'.
+Proof. exact ub_env_roundtrip. Qed.
+Print Assumptions C19_env_roundtrip.
